@@ -56,8 +56,19 @@ PATTERNS = {
     "planar4": (["C", "O", "O", "H"], [(0, 0, 0), (1.125, 0.5, 0), (-1.125, 0.5, 0), (0, -1.0, 0)]),
     "asym4": (["C", "N", "O", "F"], [(0, 0, 0), (1.25, 0, 0), (0.25, 1.375, 0), (-0.5, -0.25, 1.125)]),
     "chiral": (["C", "H", "F", "Cl", "Br"], [(0, 0, 0), (0.625, 0.625, 0.625), (-0.75, -0.75, 0.75), (-0.875, 0.875, -0.875), (1, -1, -1)]),
+    # first atom with a two-letter symbol that contains a one-letter symbol (Cl/C, Si/S): look-alike elements
+    "halo": (["Cl", "C", "N"], [(0, 0, 0), (1.75, 0, 0), (2.375, 1.125, 0)]),
+    "siloxy": (["Si", "O", "H"], [(0, 0, 0), (1.625, 0, 0), (2.0, 0.875, 0.25)]),
     "asym5": (["C", "C", "N", "O", "H"], [(0, 0, 0), (1.5, 0, 0), (2.0, 1.25, 0.25), (-0.5, 1.0, -0.75), (0.25, -0.75, 0.875)]),
 }
+
+
+# the same patterns supplied in other exact poses (cyclic permutations of the coordinate axes are proper rotations):
+# the long axis of the pattern then lies along y or z instead of x
+for _name in ["pair", "collinear_asym", "bent", "planar4", "asym4"]:
+    _els, _xyz = PATTERNS[_name]
+    PATTERNS[_name + "@y"] = (_els, [(p[2], p[0], p[1]) for p in _xyz])
+    PATTERNS[_name + "@z"] = (_els, [(p[1], p[2], p[0]) for p in _xyz])
 
 
 def pattern_json(name):
